@@ -59,7 +59,9 @@ ALSO = {   # clauses of other kinds that also belong to a property (same traces,
     # after an edit, transform / summary / reload must keep agreeing: their clauses in the c17 histories belong to C17
     'C17': ['C17_reload_differs', 'C16_summary', 'C04_label', 'C06_summary_differs', 'C06_json_not_idempotent'],
     'C19': ['C19_transform_changed'],
-    'C07': ['C07_fit_transform_differs', 'C07_repeat_differs'],
+    # row-wise purity: every transform of a subset / permutation / re-indexed frame is judged row by row against the
+    # mapping, so label clauses observed in the c07 histories belong to C07
+    'C07': ['C07_fit_transform_differs', 'C07_repeat_differs', 'C04_label', 'C05_label', 'C05_raw_value_leaked'],
     'C06': ['C06_behaviour'],
 }
 
